@@ -5,6 +5,9 @@ from vf import step
 from vf.runner import UnitSpec
 
 
+PER_ROW = {}  # row name -> extra mk_step options
+
+
 def family_units(families, archs, tables, only=None, sec=True, virt=False, tag='', **stepkw):
     step.load_tables(tables)
     us = []
@@ -17,7 +20,11 @@ def family_units(families, archs, tables, only=None, sec=True, virt=False, tag='
             if arch < E.arch:
                 continue
             kw = dict(enc=name, arch=arch, sec=sec, virt=virt, tables=tables)
+            if E.family.endswith(('_aux', '_undef')):
+                kw['expect_class'] = False  # auxiliary rows: regions where the decoder selects no class
             kw.update(stepkw)
+            if name in PER_ROW:
+                kw.update(PER_ROW[name])
             us.append(UnitSpec('step/%s/v%d%s' % (name, arch, tag), 'vf.step', 'mk_step', kw, max_seconds=900,
                                weight=2.0 if 'RegisterA1' in name or 'T2' in name else 1.0))
     return us
